@@ -37,8 +37,11 @@ def run(ctx):
             outs = list(ex.map(lambda sc: vlib.run_lines(exe, [sc[1]], timeout=1800)[0], scen))
         # history across key sets: the outputs under the key set of the spec do not depend on whether this process and thread used another
         # key set (other dimensions) before
-        hh = [vlib.run_lines(exe, ['refhash %s %d %d' % (spec, ctx.seed + 21, pre)], timeout=3600)[0] for pre in (0, 1)]
+        hh = [vlib.run_lines(exe, ['refhash %s %d %d' % (spec, ctx.seed + 21, pre)], timeout=3600)[0] for pre in (0, 1, 2)]
         ctx.count((be, bu, 'refhash'))
+        if hh[0].startswith('CRASH') or hh[2].startswith('CRASH') or hh[0].strip() != hh[2].strip():
+            ctx.report('nondeterministic-keyset-history', '%s/%s: 16 gate evaluations under the key set of the run give %s when it is the first key set of the process and %s when the thread generated and used a small custom key set with other layouts (n = 12, gadget (4,5), key switch (5,3)) before: the result depends on which key sets were used earlier' % (be, bu, hh[0][:40], hh[2][:40]),
+                       {'case': 'refhash %s %d 2' % (spec, ctx.seed + 21), 'scenario': 'refhash', 'backend': be, 'build': bu})
         if hh[0].startswith('CRASH') or hh[1].startswith('CRASH') or hh[0].strip() != hh[1].strip():
             ctx.report('nondeterministic-keyset-history', '%s/%s: 16 gate evaluations under the 128-bit key set give %s when it is the first key set of the process and %s when the thread generated and used the 80-bit key set before: the result depends on which key sets were used earlier' % (be, bu, hh[0][:40], hh[1][:40]),
                        {'case': 'refhash %s %d 1' % (spec, ctx.seed + 21), 'scenario': 'refhash', 'backend': be, 'build': bu})
